@@ -27,7 +27,7 @@ HARNESSES = [
 ]
 GROUPS = {"sync": "check_sync", "multi": "check_multi", "endpoints": "check_endpoints"}
 EXPLAIN = {"sync": "explain_sync", "multi": "explain_multi", "endpoints": "explain_endpoints"}
-CASES = {"quick": 240, "thorough": 2400}
+CASES = {"quick": 216, "thorough": 2400}
 RULE = ("cases: one write history (put/delete/txn/delete-prefix; bursts, same-value puts, delete-then-recreate, keys under/"
         "outside/near the watched key or prefix; sleeps; muted watch, injected watch cancellation, etcd server stop/start) "
         "x 2-4 subscriptions (Sync/SyncRaw/SyncPrefix/SyncRawPrefix, subscribed at any point, fast/slow/late consumer); "
@@ -36,6 +36,9 @@ RULE = ("cases: one write history (put/delete/txn/delete-prefix; bursts, same-va
         "came back after being replaced (+32), 3-member same-host cluster with the server of one member stopped (+64); "
         "size dimension: values up to ~200 KiB, prefix totals crossing a small non-default cluster.max-call-send-msg-size "
         "(64 KiB..2 MiB) and the 2/4 MiB client defaults; "
+        "forced interleaving: writes (put-then-delete, recreate, overwrites) issued while the periodic pull of every "
+        "subscription is in flight (parked on the cluster's client mutex held by the harness), so their watch events are "
+        "queued behind a pull that already saw the later state; "
         "key-count dimension: prefixes of 513 / 1024 / >1024 (1025, 1100, 1537, 2049) keys written by index ranges, then "
         "changes of the last, a middle and a first key; "
         "group endpoints: etcd client endpoint list built by getClient vs members of the initial cluster (1-7 members, same "
@@ -118,7 +121,7 @@ def _op(o):
 
 
 _KIND = {"sync": 0, "raw": 1, "prefix": 2, "rawprefix": 3}
-_FAULTS = ("mute", "unmute", "cancel", "restart", "stop", "start")
+_FAULTS = ("mute", "unmute", "cancel", "restart", "stop", "start", "hold", "release")
 
 
 def _down_max(ops):
